@@ -123,9 +123,14 @@ impl Prop for C14 {
         vec!["control characters (Unicode Cc) are excluded from names, as the property states".into(), "scratch files are written under /verif/work and removed".into()]
     }
     fn strategy(&self, _tier: Tier) -> BoxedStrategy<RtCase> {
-        (0u8..8, vec(name(), 0..8), vec((any::<u8>(), any::<u8>(), weight()), 0..12), prop::bool::weighted(0.25))
-            .prop_map(|(kind, names, edges, via_file)| RtCase { kind, names, edges, via_file })
-            .boxed()
+        let small = (0u8..8, vec(name(), 0..8), vec((any::<u8>(), any::<u8>(), weight()), 0..12), prop::bool::weighted(0.25))
+            .prop_map(|(kind, names, edges, via_file)| RtCase { kind, names, edges, via_file });
+        // documents of 100-400 KiB with long non-ASCII names, always through the file variants:
+        // block-wise I/O, buffer boundaries and size thresholds of the writer and reader
+        let long_name = vec(prop_oneof![prop::char::range('\u{430}', '\u{44f}'), prop::char::range('\u{4e00}', '\u{4e80}'), prop::char::range('a', 'z'), Just('\u{1F600}')], 20..70).prop_map(|v| v.into_iter().collect::<String>());
+        let big = (0u8..8, vec(long_name, 150..255), vec((any::<u8>(), any::<u8>(), weight()), 300..700))
+            .prop_map(|(kind, names, edges)| RtCase { kind, names, edges, via_file: true });
+        prop_oneof![3000 => small, 1 => big].boxed()
     }
     fn case_timeout_s(&self) -> u64 {
         30
@@ -186,6 +191,9 @@ impl Prop for C14 {
         }
         if special_weight {
             out.class("special_weight");
+        }
+        if text.len() > 65536 {
+            out.class("document_larger_than_64KiB");
         }
         if edges.iter().any(|e| e.2.is_nan()) && edges.iter().any(|e| !e.2.is_nan()) {
             out.class("mixed_weighted_unweighted");
